@@ -311,6 +311,9 @@ def tensordot(lhs, rhs, axes=2):
         left_axes = tuple(left_axes)
     if isinstance(right_axes, list):
         right_axes = tuple(right_axes)
+    # the chunk function and the final reduction both need non-negative axes
+    left_axes = tuple(ax if ax >= 0 else lhs.ndim + ax for ax in left_axes)
+    right_axes = tuple(ax if ax >= 0 else rhs.ndim + ax for ax in right_axes)
     is_sparse = _tensordot_is_sparse(lhs) or _tensordot_is_sparse(rhs)
     if is_sparse and len(left_axes) == 1:
         concatenate = True
@@ -344,8 +347,7 @@ def tensordot(lhs, rhs, axes=2):
     if concatenate:
         return intermediate
     else:
-        left_axes = [ax if ax >= 0 else lhs.ndim + ax for ax in left_axes]
-        return intermediate.sum(axis=left_axes)
+        return intermediate.sum(axis=list(left_axes))
 
 
 @derived_from(np, ua_args=["out"])
